@@ -180,6 +180,8 @@ def paired_runs(ctx, stop_first=False):
             # a non-uniform drive stated with its own current unit: the field of a 5 mA loop above the film
             dict(kind="ring", B=None, I=None, screening=False, loop=dict(I=5e-3, R=1.5e-6, center=(0.3e-6, -0.2e-6, 1.0e-6))),
             # ... and the same with the film itself off the z = 0 plane (the height is a length in the user's units too)
+            # the devices of all unit systems built on ONE dimensionless Mesh object (it is dimensionless: sharing it is legitimate)
+            dict(kind="bar", B=0.3e-3, I=2.5e-6, screening=False, share=True),
             dict(kind="ring", B=None, I=None, screening=False, z0=0.4e-6, loop=dict(I=5e-3, R=1.5e-6, center=(0.3e-6, -0.2e-6, 1.2e-6)))]
     for cfg in cfgs:
         ref_dev = device_in_units(cfg["kind"], "um", 5, lam=(0.5 if cfg["screening"] else 2.0))
@@ -188,7 +190,9 @@ def paired_runs(ctx, stop_first=False):
             dev = device_in_units(cfg["kind"], lu, 5, mesh_from=ref_dev, lam=(0.5 if cfg["screening"] else 2.0))
             if cfg.get("z0"):
                 dev.layer.z0 = cfg["z0"] / LENGTHS[lu]
-            out = os.path.join(str(ctx.work), f"c08_{cfg['kind']}_{int(bool(cfg.get('td')))}_{int(bool(cfg.get('loop')))}_{int(bool(cfg.get('z0')))}_{int(cfg['screening'])}_{lu}_{fu}_{cu}.h5")
+            if cfg.get("share"):
+                dev.mesh = ref_dev.mesh
+            out = os.path.join(str(ctx.work), f"c08_{int(bool(cfg.get('share')))}{cfg['kind']}_{int(bool(cfg.get('td')))}_{int(bool(cfg.get('loop')))}_{int(bool(cfg.get('z0')))}_{int(cfg['screening'])}_{lu}_{fu}_{cu}.h5")
             if os.path.exists(out):
                 os.remove(out)
             opts = runs.options(solve_time=0.1, dt_init=5e-3, save_every=4, output_file=out, field_units=fu, current_units=cu,
@@ -236,7 +240,7 @@ def paired_runs(ctx, stop_first=False):
             continue
         base, Kb, Bb = results[0]
         for (lu, fu, cu), (fr, Kp, Bp) in zip(combos[1:], results[1:]):
-            tag = dict(device=cfg["kind"], units=[lu, fu, cu], screening=cfg["screening"], time_dependent_field=bool(cfg.get("td")), current_loop_drive=bool(cfg.get("loop")))
+            tag = dict(device=cfg["kind"], units=[lu, fu, cu], screening=cfg["screening"], time_dependent_field=bool(cfg.get("td")), current_loop_drive=bool(cfg.get("loop")), shared_mesh_object=bool(cfg.get("share")))
             for fa, fb in zip(base, fr):
                 da, db = fa["data"], fb["data"]
                 errs = dict(abs_psi=float(np.abs(np.abs(da["psi"]) - np.abs(db["psi"])).max()), Js=float(np.abs(da["supercurrent"] - db["supercurrent"]).max()),
@@ -245,7 +249,7 @@ def paired_runs(ctx, stop_first=False):
                 w = max(errs.values())
                 tolr = 1e-9 if not cfg["screening"] else 1e-6  # the screening loop stops on a tolerance: iteration counts may differ by rounding
                 ctx.tol(f"paired runs, screening={cfg['screening']}", w, tolr)
-                ctx.case((cfg["kind"], bool(cfg.get("td")), bool(cfg.get("loop")), cfg["screening"], lu, fu, cu, fa["step"]), nontrivial=True)
+                ctx.case((cfg["kind"], bool(cfg.get("td")), bool(cfg.get("loop")), bool(cfg.get("share")), cfg["screening"], lu, fu, cu, fa["step"]), nontrivial=True)
                 ctx.count("frame_pairs")
                 if fa["step"] != fb["step"] or w > tolr:
                     ctx.fail("unit-dependent-solution", f"step {fa['step']}: dimensionless solution differs between unit systems: {errs}", dict(tag, step=fa["step"], errs=errs))
